@@ -13,7 +13,9 @@ MANIFEST = dict(
     technique='Rocq proof generic over the escape tables (induction over the string; tables AND the shape of escape_text regenerated '
               'from tokenizer.py, side conditions kernel-checked; the loop of _handle_string read from the source as a decision table by '
               'abstract execution, proved equal to the hand model when its rows are the model\'s) + exhaustive code-point / small-scope correspondence + in-kernel '
-              'small-scope enumeration of the model of the code + oracle search',
+              'small-scope enumeration of the model of the code + oracle search (incl. histories: state carried from one tokenizer to the next); '
+              'round 4: _get_token / _handle_comment read from the source as decision trees proved equal to the hand model when they pass eight '
+              'boolean conditions, a state census, and the whole property in one theorem for the three functions as written',
     text='Theorems in Props/C02.v, for every string (list of code points), both multiline modes, every option vector with '
          'allow_escapes, any starting line and any text following the closing quote: tokenizing DQ+escape(s)+DQ yields exactly '
          'STRING s then EOF for ever (flat input and the chunked reader state of the real class, any chunking); the escaped '
@@ -27,6 +29,13 @@ MANIFEST = dict(
          'a backslash: 32 rows); a table of such rows has a meaning as a reader program (hs_interp), and if the rows are the model\'s '
          '(obligation handle_string_rows_are_the_model) that program IS the hand model handle_string on every input, flat or chunked '
          '(c02_handle_string_table_is_model*), so the inverse law holds for both functions as written (c02_inverse_as_written). '
+         'Round 4: _get_token and _handle_comment are executed on abstract values segment by segment (outer loop, four inner loops, entry of '
+         '_handle_comment, its two loops) into decision trees; if the trees compute the model\'s functions on every consistent abstract '
+         'environment (eight obligations) their interpretation IS the hand model get_token on every input, flat and chunked; '
+         'c02_property_as_written composes everything: pipeline read from escape_text + trees + rows of _handle_string, under the named '
+         'boolean conditions, give exactly STRING s then EOF for ever for every string, both modes and ANY chunking. A state census '
+         '(no data attribute bound in the class body, no self attribute / module name outside line_num, _last_was_cr, the options and the '
+         'reader read or written, constant tables never mutated) backs the premise that nothing outlives a call. '
          'The theorems are generic over the tables; the conditions '
          '(every escape decodes back, no symbol is a line feed, DQ/CR/backslash always escaped, LF escaped in single-line mode, '
          'DQ is not an operator) are discharged by vm_compute for the tables regenerated from the source on every run. '
@@ -35,8 +44,9 @@ MANIFEST = dict(
          'every code point 0..0x10FFFF in both modes and on all strings over that alphabet up to length 4; the string-reading '
          'loop of the model is compared with the real Tokenizer on every text DQ+w, w up to length 4, with and without escapes.',
     note='Trusted: Coq kernel + vm_compute (incl. primitive Uint63 for checksums), translate/c02_tables.py, translate/c02_hstring.py (the '
-         'abstract executor of the _handle_string loop body: fail-closed on anything outside its statement language), the hand model '
-         'Text/Tokenizer.v of _get_token (tied by exhaustive small-scope differential runs; _handle_string additionally by the table), CPython re/str '
+         'abstract executor of the _handle_string loop body: fail-closed on anything outside its statement language), translate/c02_gettoken.py '
+         '(the same for the segments of _get_token / _handle_comment, and the state census), the hand model '
+         'Text/Tokenizer.v (tied by exhaustive small-scope differential runs and now by the table / the trees read from the source), CPython re/str '
          '(a regex that is an alternation of single characters substitutes per character; str.replace is leftmost non-overlapping). '
          'The Cython twins (_tokenizer.pyx) cannot be built here and are not covered. Embedding in VMF/BSP/DMX files is '
          'covered only through the compositional theorem (any rest of input) and Tokenizer/Keyvalues.parse-level search.',
@@ -79,7 +89,17 @@ def units_bad(esc: str, multiline: bool) -> str | None:
 
 
 def oracle(s: str, multiline: bool, pre: str = '', post: str = '', cut: int | None = None, bits: int = BITS_ESC) -> str | None:
-    """The property on the real code. Returns None if it holds, else a short description."""
+    """The property on the real code. Returns None if it holds, else a short description.  Every call is bounded in time: a fault
+    that makes escape_text or the tokenizer loop is a failing input ('no result within ... s'), not a hung check."""
+    try:
+        with U.time_limit():
+            return _oracle(s, multiline, pre, post, cut, bits)
+    except U.ImplTimeout:
+        U.note_hang('oracle', (s, multiline, pre, post, cut, bits))
+        return f'hang: no result within {U.IMPL_LIMIT_S:.0f} s of CPU time'
+
+
+def _oracle(s: str, multiline: bool, pre: str, post: str, cut: int | None, bits: int) -> str | None:
     from srctools.tokenizer import Token, Tokenizer, TokenSyntaxError, escape_text
     try:
         esc = escape_text(s, multiline)
@@ -121,6 +141,15 @@ def oracle(s: str, multiline: bool, pre: str = '', post: str = '', cut: int | No
 
 def kv_oracle(s: str, multiline: bool) -> str | None:
     """The escaped string as key and as value (plain and flagged line) of a KeyValues block, through Keyvalues.parse."""
+    try:
+        with U.time_limit():
+            return _kv_oracle(s, multiline)
+    except U.ImplTimeout:
+        U.note_hang('kv_oracle', (s, multiline))
+        return f'hang: no result within {U.IMPL_LIMIT_S:.0f} s of CPU time'
+
+
+def _kv_oracle(s: str, multiline: bool) -> str | None:
     from srctools.keyvalues import Keyvalues
     from srctools.tokenizer import escape_text
     esc = escape_text(s, multiline)
@@ -156,6 +185,92 @@ def shrink(s: str, pred) -> str:
             if pred(cand):
                 cur = cand
     return cur
+
+
+# ------------------------------------------------------------------------------------------------ histories: state carried between tokenizers
+POISONS = [
+    ('unterminated-string', '"value that is never closed\n'),
+    ('unterminated-string-after-CR', '"ab\r'),
+    ('dangling-escape', '"ab\\'),
+    ('unterminated-bracket', '[abc'),
+    ('unterminated-paren', '(abc\n'),
+    ('unclosed-star-comment', '/* abc\n'),
+    ('nested-paren', '(a(b'),
+    ('complete-parse', '"a" "b\\n"\r\n// c\n{ }'),
+    ('iterator-raises-inside-a-string', None),
+    ('tokenizer-abandoned-inside-a-string', None),
+    ('keyvalues-parse-fails', '"a" { "b" "c'),
+]
+
+
+def run_poison(kind: str) -> None:
+    """Something that happens BEFORE the string is tokenized, in the same process: a parse that fails inside a quoted string / a
+    bracket / a comment, a complete parse, a chunk iterator that raises in the middle of a string, a tokenizer that is simply
+    dropped in the middle of a string, a failing Keyvalues.parse.  None of it may influence a later, unrelated tokenizer."""
+    from srctools.tokenizer import Tokenizer, TokenSyntaxError
+    text = dict(POISONS)[kind]
+    try:
+        if kind == 'iterator-raises-inside-a-string':
+            def chunks():
+                yield '"abc'
+                yield 'def\r'
+                raise RuntimeError('iterator failed')
+            list(Tokenizer(chunks(), None, allow_star_comments=True, string_bracket=True))
+        elif kind == 'tokenizer-abandoned-inside-a-string':
+            class Stop(Exception):
+                pass
+
+            def chunks2():
+                yield '"abc'
+                raise Stop
+            try:
+                Tokenizer(chunks2(), None)()
+            except Stop:
+                pass
+        elif kind == 'keyvalues-parse-fails':
+            from srctools.keyvalues import Keyvalues
+            Keyvalues.parse(text)
+        else:
+            list(Tokenizer(text, None, allow_star_comments=True, string_bracket=True))
+    except (TokenSyntaxError, RuntimeError):
+        pass
+
+
+def history_search(ck: Ck) -> None:
+    """After each kind of earlier event, every string over the escape alphabet up to length 2 (both modes) must still round-trip
+    through a NEW tokenizer; also through Keyvalues.parse for length <= 1."""
+    reported: set[str] = set()
+    for kind, _ in POISONS:
+        for ml in (False, True):
+            for s in U.strings_upto(ESC_ALPHA, 2):
+                run_poison(kind)
+                ck.count('search_history')
+                r = oracle(s, ml)
+                if r is None and len(s) <= 1:
+                    run_poison(kind)
+                    r = kv_oracle(s, ml)
+                    kv = r is not None
+                else:
+                    kv = False
+                if len(s) == 2 and s[0] != s[1]:
+                    ck.seen(('h', kind, ml, s))
+                if r is None:
+                    continue
+                # the same call again, with nothing in between: if it fails in the same way the failure does not depend on the
+                # history (the exhaustive search below reports it under its own key)
+                if (kv_oracle(s, ml) if kv else oracle(s, ml)) == r:
+                    ck.count('search_history_independent_failures')
+                    continue
+                mode = 'multi' if ml else 'single'
+                key = f'roundtrip-after-{kind}-{mode}' + ('-kvparse' if kv else '')
+                if key in reported:
+                    ck.count('search_failures_beyond_cap')
+                    continue
+                reported.add(key)
+                ck.violation(key, f'after {kind}: escape_text({s!r}, multiline={ml}) no longer tokenizes back: {r}',
+                             {'s': [ord(c) for c in s], 'multiline': ml, 'context': {'kv': True} if kv else {}, 'history': kind, 'why': r,
+                              'how': 'checks.c02.run_poison(history); checks.c02.oracle("".join(map(chr, s)), multiline)'})
+    ck.hist('search', f'histories: {len(POISONS)} kinds of earlier event x strings up to length 2 x 2 modes', 2 * len(POISONS) * 211)
 
 
 CAP = 3
@@ -208,6 +323,8 @@ def search(ck: Ck, escalate: bool) -> None:
             r = oracle(s, ml) or kv_oracle(s, ml)
             if r is not None:
                 report(ck, s, ml, r)
+    # (h) histories: state carried from one tokenizer to the next
+    history_search(ck)
     # (a) exhaustive over the escape alphabet
     for ml in (False, True):
         for s in U.strings_upto(ESC_ALPHA, n):
@@ -497,25 +614,32 @@ def _locate(ck: Ck, sh, alpha) -> str:
 
 # ------------------------------------------------------------------------------------------------ main
 def run(ck: Ck) -> None:
+    U.guarded('C02', _run, ck)
+
+
+def _run(ck: Ck) -> None:
     _REPORTED.clear()
     ck.rule = ('exhaustive: every string over the 14-character escape alphabet (backslash, quote, apostrophe, CR, LF, TAB, VT, BS, '
                'FF, BEL, ?, /, n, x) up to length 4 (5 thorough) in both modes, non-trivial = length >= 2; every code point '
                '0..0x10FFFF, non-trivial = escape_text changes it; random strings (escape alphabet / ASCII / surrogates / BMP / '
                'astral) of length 1..200 embedded in ten token contexts, cut into chunks at a random position, under other '
-               'option vectors, through Keyvalues.parse, non-trivial = contains a character of the escape alphabet; distinct by '
-               'full input')
+               'option vectors, through Keyvalues.parse, non-trivial = contains a character of the escape alphabet; histories: 11 kinds of '
+               'earlier event (failed / complete / abandoned parses) followed by every string up to length 2 in a new tokenizer, '
+               'non-trivial = two different characters; distinct by full input')
     ck.trusted.append('hand-written model Text/Tokenizer.v (handle_string/get_token) and Text/Escape.v (tied by exhaustive small-scope and per-code-point differential runs on every run; handle_string also by the decision table read from the source)')
     ck.trusted.append('translate/c02_hstring.py: abstract execution of the loop body of Tokenizer._handle_string (fail-closed outside its statement language)')
+    ck.trusted.append('translate/c02_gettoken.py: abstract execution of the segments of Tokenizer._get_token / _handle_comment into decision trees, and the state census (fail-closed outside its statement language)')
     ck.trusted.append('harness/c02_util.py checksum mirror of Text/TokEnum.v (63-bit; a collision would hide a disagreement)')
     ck.assumptions.append('Python str = list of code points; re.sub over an alternation of single characters acts per character (exercised by the string correspondence)')
     ck.assumptions.append('pure-Python tokenizer only; the Cython twin _tokenizer.pyx cannot be built in this sandbox')
     ok_t = ck.translate('EscTables_gen', c02_tables.translate)
     ok_h = translate_hstring(ck)
+    ok_g = U.translate_get_token_trees(ck)
     side = ck.extra.get('translated', {}).get('EscTables_gen', {})
     escalate = bool(side) and any(side.get('digests', {}).get(k) != v for k, v in c02_tables.MODEL_DIGESTS.items())
     if escalate:
         ck.notes.append('hand-modelled tokenizer functions changed since the model was written: correspondence budgets escalated')
-    built = ok_t and ck.build(['Props/C02.vo', 'Text/TokEnum.vo', 'Text/HsGen.vo'])
+    built = ok_t and ck.build(['Props/C02.vo', 'Text/TokEnum.vo', 'Text/HsGen.vo', 'Text/GtGen.vo'])
     if built:
         th = U.theorems_in_background(ck, 'Props/C02.v')
         ck.instance_obligations(U.IMPORTS, {
@@ -537,6 +661,7 @@ def run(ck: Ck) -> None:
             'operators_name_known_tokens': 'operators_all_known',
         })
         handle_string_table(ck, ok_h)
+        U.get_token_tree_obligations(ck, ok_g, c02_property=ok_h)
         model_counterexamples(ck)
         corr_codepoints(ck)
         corr_escape_strings(ck, escalate)
@@ -563,6 +688,9 @@ def replay(data: dict) -> int:
     ctx = r.get('context') or {}
     esc = escape_text(s, ml)
     print(f's = {s!r}\nescape_text(s, multiline={ml}) = {esc!r}')
+    if r.get('history'):
+        print(f'history: first {r["history"]} (text {dict(POISONS).get(r["history"])!r}), then a new tokenizer')
+        run_poison(r['history'])
     if ctx.get('kv'):
         res = kv_oracle(s, ml)
     else:
@@ -571,6 +699,8 @@ def replay(data: dict) -> int:
             print('tokens:', list(Tokenizer(kw.get('pre', '') + '"' + esc + '"' + kw.get('post', ''))))
         except Exception as e:  # noqa: BLE001
             print('tokenizer raised', repr(e))
+        if r.get('history'):
+            run_poison(r['history'])
         res = oracle(s, ml, **kw)
     mv = U.model_eval([f'gen_escape {"true" if ml else "false"} {coq_str(s)}',
                        f'tok_case {BITS_ESC} (DQ :: gen_escape {"true" if ml else "false"} {coq_str(s)} ++ [DQ])'])
